@@ -15,6 +15,10 @@
 (*   "none"  no indices and no total (Unreal 2): the client collects until *)
 (*           the server falls silent; no order can or need be restored     *)
 (*           (the lists have no protocol-defined order, D1).               *)
+(* A Valve Source reply may be bzip2-compressed (comp): the decompressed    *)
+(* size and the CRC32 travel in the fragment NUMBERED 0 only, wherever it  *)
+(* arrives; the client takes them from that fragment (hdr), never from the *)
+(* datagram that happened to arrive first.                                 *)
 (* A duplicate is either ignored or makes the query fail; it never changes *)
 (* a successful result.                                                    *)
 (***************************************************************************)
@@ -25,11 +29,12 @@ CONSTANTS Ks,        \* fragment counts explored
           AllowDup,
           Emit
 
-VARIABLES k, mode, delivered, dupUsed, have, knownTotal, sawDup, result
-vars == <<k, mode, delivered, dupUsed, have, knownTotal, sawDup, result>>
+VARIABLES k, mode, comp, hdr, delivered, dupUsed, have, knownTotal, sawDup, result
+vars == <<k, mode, comp, hdr, delivered, dupUsed, have, knownTotal, sawDup, result>>
 
 Frags == 0 .. (k - 1)
 Init == /\ k \in Ks /\ mode \in Modes
+        /\ comp \in (IF mode = "all" THEN BOOLEAN ELSE {FALSE}) /\ hdr = "none"
         /\ delivered = <<>> /\ dupUsed = FALSE /\ have = {} /\ knownTotal = 0 /\ sawDup = FALSE
         /\ result = "pending"
 
@@ -39,27 +44,29 @@ Undelivered == Frags \ {delivered[i] : i \in 1 .. Len(delivered)}
 Consume(i) ==
   /\ sawDup' = (sawDup \/ i \in have)
   /\ have' = have \cup {i}
+  /\ hdr' = IF comp /\ i = 0 THEN "frag0" ELSE hdr
   /\ knownTotal' = CASE mode = "all" -> k
                      [] mode = "last" -> IF i = k - 1 THEN k ELSE knownTotal
                      [] mode = "none" -> 0
 
 Deliver(i) == /\ result = "pending" /\ i \in Undelivered
               /\ delivered' = Append(delivered, i) /\ Consume(i)
-              /\ UNCHANGED <<k, mode, dupUsed, result>>
+              /\ UNCHANGED <<k, mode, comp, dupUsed, result>>
 
 Duplicate(i) == /\ result = "pending" /\ AllowDup /\ ~dupUsed /\ mode # "none"
                 /\ i \in Frags \ Undelivered
                 /\ delivered' = Append(delivered, i) /\ dupUsed' = TRUE /\ Consume(i)
-                /\ UNCHANGED <<k, mode, result>>
+                /\ UNCHANGED <<k, mode, comp, result>>
 
 \* the client decides the response is complete (placing fragments by index), or - after a duplicate - gives up
 Complete == /\ result = "pending"
             /\ IF mode = "none" THEN Undelivered = {} ELSE (knownTotal = k /\ have = Frags)
+            /\ comp => hdr = "frag0"
             /\ result' = "same-as-in-order"
-            /\ UNCHANGED <<k, mode, delivered, dupUsed, have, knownTotal, sawDup>>
+            /\ UNCHANGED <<k, mode, comp, hdr, delivered, dupUsed, have, knownTotal, sawDup>>
 FailOnDup == /\ result = "pending" /\ sawDup
              /\ result' = "error"
-             /\ UNCHANGED <<k, mode, delivered, dupUsed, have, knownTotal, sawDup>>
+             /\ UNCHANGED <<k, mode, comp, hdr, delivered, dupUsed, have, knownTotal, sawDup>>
 
 Next == (\E i \in Frags : Deliver(i) \/ Duplicate(i)) \/ Complete \/ FailOnDup
 Spec == Init /\ [][Next]_vars /\ WF_vars(Next)
@@ -69,9 +76,10 @@ Spec == Init /\ [][Next]_vars /\ WF_vars(Next)
 OrderIndependent == (result = "same-as-in-order") => (mode = "none" \/ have = Frags)
 ErrorOnlyOnDup == (result = "error") => sawDup
 NeverEarly == (result = "same-as-in-order" /\ mode # "none") => Cardinality(have) = k
+HeaderFromFragmentZero == (result = "same-as-in-order" /\ comp) => hdr = "frag0"
 Terminates == <>(result # "pending")
 
 \* one line per complete delivery schedule (the order the environment chose)
 Export == (result # "pending" /\ Emit /\ Undelivered = {}) =>
-             PrintT(<<"SCHEDULE", ToJson([k |-> k, mode |-> mode, order |-> delivered, dup |-> dupUsed, result |-> result])>>)
+             PrintT(<<"SCHEDULE", ToJson([k |-> k, mode |-> mode, comp |-> comp, order |-> delivered, dup |-> dupUsed, result |-> result])>>)
 =============================================================================
